@@ -324,7 +324,7 @@ func writeChunked(c net.Conn, b []byte, chunk int) error {
 }
 
 func c47(r *vkit.Run) {
-	r.SetRule("full in-process BFE (HTTP + HTTPS with ALPN stream); tunnels of three kinds (websocket over http, over https, TLS-offload stream) to raw TCP backends; each direction carries a position-dependent token stream of 0 B..1 MB written in chunks of 1 B..1 MB, both directions concurrently, optionally with client bytes in the same write as the upgrade request and backend bytes in the same write as the 101 response; receivers verify every offset; after both sides have received everything the designated closer (client or backend, clean FIN or RST) closes and the other side must observe EOF/close, bounded by completed control round trips through bfe rather than by a timeout. Second family (last write together with the close): the closer's stream ends with a write of 1 B..64 KB that is followed at once by a clean close, issued when the closer has received the whole opposite stream (nothing else in flight, no RST): TLS clients (wss, stream) run over a connection wrapper that emits the last application-data records and the close_notify alert in ONE TCP write and then closes; plain TCP closers (websocket client, every backend) call Write directly followed by Close; the receiver must have verified every offset of the closer's stream before it observes EOF (a receive that ends on the 120 s watchdog deadline is skipped, never judged), then the close must be propagated as above. Third family (c47bp.go, close propagation and transparency under BACK-PRESSURE): 24 shapes = kind (ws, wss, stream) x flooding side (client, backend) x closing side x half/full close. The flooder writes a token stream in chunks of 4 KB..1 MB while the other side does not read, until the writer has made no progress for 0.4 s (every buffer on the path is full, bfe's relay for that direction is parked in a Write; several MB in flight). reader-closes: the side that never read (SO_RCVBUF 4..64 KB) half-closes (TCP CloseWrite; TLS clients: close_notify via tls.Conn.CloseWrite, TCP connection kept) or closes; the flooder must observe the end of the tunnel (EOF/error on its Read or a failing Write); a flood that never stalls is skipped. writer-closes: the flooder writes 4..16 MB (thorough: ..32 MB) and half-closes or closes right after its last write; the reader side starts to read only when the flooder has stalled or finished, must receive every byte unchanged (a drain that ends on the 120 s watchdog is skipped) and then EOF. 'Not closed' is reported only after 60 COMPLETED control round trips through bfe (fresh TLS stream tunnels, >= 100 ms apart) and skipped if they do not complete; inconclusive if one of the 24 shapes was never judged. Non-trivial = both directions non-empty, early data, a last write with close, or a back-pressure case; distinct = (kind, sizes, early, chunk, closer, reset, last) resp. (kind, flooder, closer, mode, size, chunk, rcvbuf)")
+	r.SetRule("full in-process BFE (HTTP + HTTPS with ALPN stream); tunnels of three kinds (websocket over http, over https, TLS-offload stream) to raw TCP backends; each direction carries a position-dependent token stream of 0 B..1 MB written in chunks of 1 B..1 MB, both directions concurrently, optionally with client bytes in the same write as the upgrade request and backend bytes in the same write as the 101 response; receivers verify every offset; after both sides have received everything the designated closer (client or backend, clean FIN or RST) closes and the other side must observe EOF/close, bounded by completed control round trips through bfe rather than by a timeout. Second family (last write together with the close): the closer's stream ends with a write of 1 B..64 KB that is followed at once by a clean close, issued when the closer has received the whole opposite stream (nothing else in flight, no RST): TLS clients (wss, stream) run over a connection wrapper that emits the last application-data records and the close_notify alert in ONE TCP write and then closes; plain TCP closers (websocket client, every backend) call Write directly followed by Close; the receiver must have verified every offset of the closer's stream before it observes EOF (a receive that ends on the 120 s watchdog deadline is skipped, never judged), then the close must be propagated as above. Third family (c47bp.go, close propagation and transparency under BACK-PRESSURE): 24 shapes = kind (ws, wss, stream) x flooding side (client, backend) x closing side x half/full close. The flooder writes a token stream in chunks of 4 KB..1 MB while the other side does not read, until the writer has made no progress for 0.4 s (every buffer on the path is full, bfe's relay for that direction is parked in a Write; several MB in flight). reader-closes: the side that never read (SO_RCVBUF 4..64 KB) half-closes (TCP CloseWrite; TLS clients: close_notify via tls.Conn.CloseWrite, TCP connection kept) or closes; the flooder must observe the end of the tunnel (EOF/error on its Read or a failing Write); a flood that never stalls (upper bound 64 MB) is skipped. writer-closes: the flooder writes 4..16 MB (thorough: ..32 MB) and half-closes or closes right after its last write; the reader side starts to read only when the flooder has stalled or finished, must receive every byte unchanged (a drain that ends on the 120 s watchdog is skipped) and then EOF. 'Not closed' is reported only after 60 COMPLETED control round trips through bfe (fresh TLS stream tunnels, >= 100 ms apart) and skipped if they do not complete; inconclusive if one of the 24 shapes was never judged. Non-trivial = both directions non-empty, early data, a last write with close, or a back-pressure case; distinct = (kind, sizes, early, chunk, closer, reset, last) resp. (kind, flooder, closer, mode, size, chunk, rcvbuf)")
 	wsB := &c47Backend{wait: map[int]chan *c47Tunnel{}, bearly: map[int]int{}}
 	stB := &c47Backend{wait: map[int]chan *c47Tunnel{}, bearly: map[int]int{}}
 	var err error
